@@ -215,3 +215,36 @@ func VH_P_TimeoutSweep() {
 		}
 	}
 }
+
+// ---------------------------------------------------------------- search (C14)
+
+func VH_P_Search() {
+	c := vhSetup(vx.HavocMode | vx.Faults(vx.Opt("faults", 1)))
+	pat := vx.String("pattern")
+	vx.Assume(pat != "")
+	limit := vx.Int("limit")
+	vx.Assume(vx.And(limit >= 1, limit <= 2))
+	req := &t_api.SearchPromisesRequest{Id: pat, States: []promise.State{promise.Pending, promise.Timedout}, Tags: vx.Tags("tags", 0), Limit: limit, SortId: vx.Int64Ptr("sortId")}
+	res, err := SearchPromises(c, &t_api.Request{Kind: t_api.SearchPromises, Tags: map[string]string{}, SearchPromises: req})
+	if err != nil {
+		vx.Reach("error")
+		return
+	}
+	vx.Reach("page")
+	r := res.SearchPromises
+	read := vx.YieldPost(0)
+	for k := range r.Promises {
+		p := r.Promises[k]
+		vx.Assert(vhBodyIsRow(p, vx.Lookup(read, "promises", p.Id)), "C01:body-is-row")
+		vx.Assert(vx.Not(vx.And(int64(p.State) == 1, p.Timeout <= vx.Now())), "C14:overdue-pending-reported-timedout")
+		vx.Assert(vx.Implies(int64(p.State) == 16, p.Timeout <= vx.Now()), "C04:never-timedout-early")
+	}
+	full := len(r.Promises) == limit
+	vx.Assert((r.Cursor != nil) == full, "C14:cursor-exactly-when-page-full")
+	if r.Cursor != nil {
+		vx.Reach("cursor")
+		n := r.Cursor.Next
+		last := r.Promises[len(r.Promises)-1]
+		vx.Assert(vx.And(n.Id == pat, n.Limit == limit, len(n.States) == 2, n.SortId != nil, *n.SortId == vx.Lookup(read, "promises", last.Id).Int("sort_id"), vx.MapEq(n.Tags, req.Tags)), "C14:cursor-continues-the-same-query")
+	}
+}
